@@ -8,7 +8,7 @@ use std::{
 use qbice_serialize::Plugin;
 use qbice_stable_type_id::Identifiable;
 use qbice_storage::kv_database::{
-    KeyOfSetColumn, KvDatabase, WriteBatch, fjall::Fjall,
+    KeyOfSetColumn, KvDatabase, WriteBatch, fjall::Fjall, rocksdb::RocksDB,
 };
 
 #[derive(
@@ -22,7 +22,7 @@ impl KeyOfSetColumn for Tags {
     type Element = String;
 }
 
-fn scan(db: &Fjall, key: u32) -> BTreeSet<String> {
+fn scan<D: KvDatabase>(db: &D, key: u32) -> BTreeSet<String> {
     db.scan_members::<Tags>(&key).collect()
 }
 
@@ -39,7 +39,7 @@ fn table_files(dir: &Path, inside_tables: bool) -> usize {
             if p.is_dir() {
                 let is_tables = p.file_name().is_some_and(|x| x == "tables");
                 n += table_files(&p, inside_tables || is_tables);
-            } else if inside_tables {
+            } else if inside_tables || p.extension().is_some_and(|x| x == "sst") {
                 n += 1;
             }
         }
@@ -50,7 +50,7 @@ fn table_files(dir: &Path, inside_tables: bool) -> usize {
 /// Writes about 70 MiB of unrelated members (under another key of the same
 /// column) in ordinary committed batches and waits until the store has turned
 /// its full write buffer into an on-disk table.
-fn write_filler(db: &Fjall, dir: &Path, filler_key: u32) {
+fn write_filler<D: KvDatabase>(db: &D, dir: &Path, filler_key: u32) {
     const ELEMENT_LEN: usize = 60_000;
     const ELEMENTS: usize = 1_250;
     const PER_BATCH: usize = 25;
@@ -92,17 +92,11 @@ fn write_filler(db: &Fjall, dir: &Path, filler_key: u32) {
 
 /// `fjall_volume <workdir>`: members deleted by committed batches must stay deleted when the column
 /// grows beyond one in-memory write buffer of the store (64 MiB) twice - the buffers become on-disk
-/// tables in between - and after closing and reopening.  Prints one JSON line.
-fn main() {
-    let work = std::env::args().nth(1).expect("workdir");
-    let dir_buf = std::path::PathBuf::from(work).join("fjall_volume");
-    let _ = std::fs::remove_dir_all(&dir_buf);
-    std::fs::create_dir_all(&dir_buf).unwrap();
-    let dir = dir_buf.as_path();
-    let t0 = Instant::now();
-    let mut fails: Vec<String> = Vec::new();
+/// tables in between - and after closing and reopening.  Run on both shipped backends; prints one
+/// JSON line.
+fn scenario<D: KvDatabase>(name: &str, open: &dyn Fn(&Path) -> D, dir: &Path, fails: &mut Vec<String>) -> usize {
     {
-        let db = Fjall::open(dir, Plugin::default()).unwrap();
+        let db = open(dir);
         let mut batch = db.write_batch();
         batch.insert_member::<Tags>(&7, &"keep".to_string());
         batch.insert_member::<Tags>(&7, &"a".to_string());
@@ -110,22 +104,40 @@ fn main() {
         batch.insert_member::<Tags>(&8, &"b".to_string());
         batch.commit();
         write_filler(&db, dir, 1000);
-        if scan(&db, 7) != set(&["keep", "a"]) || scan(&db, 8) != set(&["keep", "b"]) { fails.push("members lost after the first flush".into()); }
+        if scan(&db, 7) != set(&["keep", "a"]) || scan(&db, 8) != set(&["keep", "b"]) { fails.push(format!("{name}: members lost after the first flush")); }
         let mut batch = db.write_batch(); batch.insert_member::<Tags>(&7, &"a".to_string()); batch.commit();
         let mut batch = db.write_batch(); batch.delete_member::<Tags>(&7, &"a".to_string()); batch.commit();
         let mut batch = db.write_batch(); batch.delete_member::<Tags>(&8, &"b".to_string()); batch.commit();
         let mut batch = db.write_batch(); batch.insert_member::<Tags>(&8, &"b".to_string()); batch.commit();
         let mut batch = db.write_batch(); batch.delete_member::<Tags>(&8, &"b".to_string()); batch.commit();
-        if scan(&db, 7) != set(&["keep"]) || scan(&db, 8) != set(&["keep"]) { fails.push("a committed delete is not visible at once".into()); }
+        if scan(&db, 7) != set(&["keep"]) || scan(&db, 8) != set(&["keep"]) { fails.push(format!("{name}: a committed delete is not visible at once")); }
         write_filler(&db, dir, 1001);
-        if scan(&db, 7) != set(&["keep"]) || scan(&db, 8) != set(&["keep"]) { fails.push(format!("after the second flush (same session): key 7 = {:?}, key 8 = {:?}, expected {{keep}} twice", scan(&db, 7), scan(&db, 8))); }
+        if scan(&db, 7) != set(&["keep"]) || scan(&db, 8) != set(&["keep"]) { fails.push(format!("{name}: after the second flush (same session): key 7 = {:?}, key 8 = {:?}, expected {{keep}} twice", scan(&db, 7), scan(&db, 8))); }
     }
-    let db = Fjall::open(dir, Plugin::default()).unwrap();
-    if scan(&db, 7) != set(&["keep"]) || scan(&db, 8) != set(&["keep"]) { fails.push(format!("after reopening: key 7 = {:?}, key 8 = {:?}, expected {{keep}} twice (members deleted by a committed batch are back)", scan(&db, 7), scan(&db, 8))); }
+    let db = open(dir);
+    if scan(&db, 7) != set(&["keep"]) || scan(&db, 8) != set(&["keep"]) { fails.push(format!("{name}: after reopening: key 7 = {:?}, key 8 = {:?}, expected {{keep}} twice (members deleted by a committed batch are back)", scan(&db, 7), scan(&db, 8))); }
     let (f0, f1) = (scan(&db, 1000).len(), scan(&db, 1001).len());
-    if f0 != 1_250 || f1 != 1_250 { fails.push(format!("filler members: {f0} and {f1} of 1250 and 1250 are there after reopening")); }
+    if f0 != 1_250 || f1 != 1_250 { fails.push(format!("{name}: filler members: {f0} and {f1} of 1250 and 1250 are there after reopening")); }
     drop(db);
-    let tables = table_files(dir, false);
-    let _ = std::fs::remove_dir_all(&dir_buf);
-    println!("{{\"ok\":{},\"bytes_written\":{},\"table_files\":{},\"seconds\":{:.1},\"fails\":{:?}}}", fails.is_empty(), 2 * 1_250 * 60_000u64, tables, t0.elapsed().as_secs_f64(), fails);
+    table_files(dir, false)
+}
+
+fn main() {
+    let work = std::env::args().nth(1).expect("workdir");
+    let t0 = Instant::now();
+    let mut fails: Vec<String> = Vec::new();
+    let mut tables = Vec::new();
+    for name in ["fjall", "rocksdb"] {
+        let dir_buf = std::path::PathBuf::from(&work).join(format!("{name}_volume"));
+        let _ = std::fs::remove_dir_all(&dir_buf);
+        std::fs::create_dir_all(&dir_buf).unwrap();
+        let n = if name == "fjall" {
+            scenario(name, &|d: &Path| Fjall::open(d, Plugin::default()).unwrap(), &dir_buf, &mut fails)
+        } else {
+            scenario(name, &|d: &Path| RocksDB::open(d, Plugin::default()).unwrap(), &dir_buf, &mut fails)
+        };
+        tables.push(n);
+        let _ = std::fs::remove_dir_all(&dir_buf);
+    }
+    println!("{{\"ok\":{},\"bytes_written_per_backend\":{},\"table_files\":{:?},\"seconds\":{:.1},\"fails\":{:?}}}", fails.is_empty(), 2 * 1_250 * 60_000u64, tables, t0.elapsed().as_secs_f64(), fails);
 }
